@@ -537,6 +537,20 @@ class Interp:
                 if isinstance(arg, T) and isinstance(e.args[0], ast.Name) and e.args[0].id in self.__dict__.get('piece_names', ()):
                     if isinstance(sep, Lit) and sep.v == '':
                         return arg
+                    st_ = self.__dict__.get('piece_struct', {}).get(e.args[0].id)
+                    if st_ is not None and isinstance(sep, Lit) and all(k_[0] == 'one' for k_ in st_[:-1]) and (not st_ or st_[-1][0] in ('one', 'star')):
+                        # the pieces are known one by one: fixed pieces, then possibly the pieces of one loop
+                        ones = [k_[1] for k_ in st_ if k_[0] == 'one']
+                        star = st_[-1] if st_ and st_[-1][0] == 'star' else None
+                        out = []
+                        for i_, t_ in enumerate(ones):
+                            out += ([sep] if i_ else []) + [t_]
+                        if star is not None:
+                            if ones:
+                                out.append(Star(cat(sep, star[1]), star[3], star[2]))
+                            else:
+                                return Join(sep, star[1], star[3], star[2])
+                        return cat(*out) if out else Lit('')
                     raise _nt(e, '(piece list joined with a non-empty separator)')
                 if not isinstance(arg, ListOf):
                     raise _nt(e, '(join over non-list)')
@@ -696,6 +710,15 @@ class Interp:
             return r if isinstance(test.ops[0], ast.IsNot) else not r
         if isinstance(test, ast.Constant):
             return bool(test.value)
+        if isinstance(test, ast.Name) and test.id in self.__dict__.get('piece_names', ()) and self.__dict__.get('piece_struct', {}).get(test.id) is not None \
+                and isinstance(env.get(test.id), T):
+            # `if pieces:` -- a list of text pieces is true when it holds a piece
+            st_ = self.piece_struct[test.id]
+            if any(k_[0] == 'one' or (k_[0] == 'star' and k_[2] >= 1) for k_ in st_):
+                return True
+            if not st_:
+                return False
+            return any(self.decide(('nonempty', k_[3]), '%s non-empty' % k_[3]) for k_ in st_)
         if self.cond_hook is not None:
             r = self.cond_hook(self, test, env)
             if r is not NotImplemented:
@@ -845,6 +868,7 @@ class Interp:
             if isinstance(cur, T) and name in names:
                 new = [self.as_str(self.ev(x, env), st) for x in lit.elts]
                 env[name] = cat(*(new + [cur])) if where_ == 'front' else cat(*([cur] + new))
+                self.__dict__.setdefault('piece_struct', {})[name] = None
                 return None
         if isinstance(st, ast.Assign) and len(st.targets) == 1 and isinstance(st.targets[0], ast.Name):
             # `pieces = [a, b]` / `pieces = [] if c else [a, b]`: a local list of text pieces (joined with '' later), kept as the
@@ -861,6 +885,7 @@ class Interp:
                 if pl is not None:
                     env[st.targets[0].id] = pl
                     self.__dict__.setdefault('piece_names', set()).add(st.targets[0].id)
+                    self.__dict__.setdefault('piece_struct', {})[st.targets[0].id] = None
                     return None
         if isinstance(st, ast.Assign) and len(st.targets) == 1:
             tgt = st.targets[0]
@@ -937,10 +962,21 @@ class Interp:
                     else:
                         cur = Lit('') if cur.item is None else Star(self.as_str(self.item_of(cur), st), cur.src, 1 if getattr(cur, 'nonempty', False) else 0)
                     names.add(name)
+                ps_ = self.__dict__.setdefault('piece_struct', {})
+                in_loop_ = isinstance(cur, AccMark) or (isinstance(cur, Cat) and cur.items and isinstance(cur.items[0], AccMark))
+                if isinstance(env.get(name), ListOf) and not hasattr(env.get(name), 'items') and not in_loop_:
+                    l0_ = env.get(name)
+                    ps_[name] = [] if l0_.item is None else ([('one', cur)] if getattr(l0_, 'exact_one', False) else [('star', cur.item, cur.minn if isinstance(cur, Star) else 0, l0_.src)])
                 if isinstance(cur, T) and name in names:
                     if f.attr == 'append':
                         piece = self.as_str(self.ev(c.args[0], env), st)
+                        if not in_loop_ and ps_.get(name) is not None:
+                            ps_[name] = ps_[name] + [('one', piece)]
+                        elif not in_loop_:
+                            ps_[name] = None
                     else:
+                        if not in_loop_:
+                            ps_[name] = None        # (refined below for the homogeneous case)
                         lst = self.resolve(self.ev(c.args[0], env))
                         if not isinstance(lst, ListOf):
                             raise _nt(st, '(extend with a non-list)')
@@ -1081,6 +1117,16 @@ class Interp:
                 if not any(repr(out[a]) == repr(c) for c in contribs):
                     contribs.append(out[a])
             item = contribs[0] if len(contribs) == 1 else Alt(contribs)
+            ps_ = self.__dict__.setdefault('piece_struct', {})
+            if a in self.__dict__.get('piece_names', ()) and ps_.get(a) is not None:
+                apps_ = [c_ for c_ in ast.walk(st) if isinstance(c_, ast.Call) and isinstance(c_.func, ast.Attribute) and isinstance(c_.func.value, ast.Name)
+                         and c_.func.value.id == a]
+                uncond_ = len(apps_) == 1 and apps_[0].func.attr == 'append' and any(isinstance(b_, ast.Expr) and b_.value is apps_[0] for b_ in st.body) \
+                    and all(not isinstance(o_, Lit) or o_.v != '' for o_ in contribs)
+                if uncond_:
+                    ps_[a] = ps_[a] + [('one', item) if getattr(lst, 'exact_one', False) else ('star', item, 1 if nonempty else 0, lst.src)]
+                else:
+                    ps_[a] = None
             if getattr(lst, 'exact_one', False):
                 env[a] = cat(self.as_str(env[a], st), item)
             else:
